@@ -8,7 +8,7 @@
    what it computes (while -> if -> std::min, a + b -> b + a, [1, D] -> [1, D + 1)) keeps them. *)
 From Coq Require Import ZArith List Bool Lia String QArith.
 From TK Require Import Shapes_Model Shapes_Spec Shapes_Proof_Base Shapes_Proof_Routines.
-From TK Require Import Validate_Model Mat_EigSelect Shapes_Src ShapesSrc Validate_C01 EigSelect_C01.
+From TK Require Import Validate_Model Mat_EigSelect Shapes_Src ShapesSrc Validate_C01 EigSelect_C01 Shapes_SrcTie.
 Import ListNotations.
 Open Scope Z_scope.
 
@@ -161,3 +161,19 @@ Theorem skip_tied :
   skip_of skip_table "SquaredLargestEigenvalues" = Some 0%nat /\
   skip_of skip_table "SmallestEigenvalues" = Some 1%nat.
 Proof. repeat split; vm_compute; reflexivity. Qed.
+
+(* ---------------------------------------------------------------- the detector of the search phase *)
+Theorem src_never_differs : forall c keff,
+  0 <= c_N c -> 0 <= c_D c -> 0 <= c_d c -> 0 <= keff -> 0 <= c_K c -> 0 <= c_nupd c -> 0 <= c_L c ->
+  src_differs c keff = false.
+Proof.
+  intros c keff HN HD Hd Hk HK Hnu HL. unfold src_differs.
+  rewrite validate_never_differs, orb_false_r.
+  apply orb_false_iff. split.
+  - unfold facts_differ_cfg, envs_of. cbn [existsb].
+    assert (Hdp : 0 <= c_d c * (c_d c + 1) / 2) by (apply Z.div_pos; nia).
+    rewrite !src_facts_never_differ; [reflexivity| | |]; unfold nonneg; cbn [s_N s_D s_d s_k s_K s_nu s_j s_kk s_dp];
+      repeat split; try lia.
+  - unfold eig_differs_cfg, eig_points.
+    destruct (c_m c); cbn [existsb]; rewrite ?eig_tied; try reflexivity; lia.
+Qed.
